@@ -4,6 +4,7 @@ mod drip;
 mod dripcase;
 mod engine;
 mod gens;
+mod osfault;
 mod props;
 mod refmodel;
 mod ring;
@@ -26,6 +27,7 @@ macro_rules! dispatch {
             "C12" => $f(&props::c12::C12, $($arg),*),
             "C13" => $f(&props::c13::C13, $($arg),*),
             "C16" => $f(&props::c16::C16, $($arg),*),
+            "C18" => $f(&props::c18::C18, $($arg),*),
             "C19" => $f(&props::c19::C19, $($arg),*),
             _ => { eprintln!("unknown property {}", $id); 2 }
         }
@@ -34,6 +36,9 @@ macro_rules! dispatch {
 
 fn main() {
     let args: Vec<String> = std::env::args().collect();
+    if args.len() >= 3 && args[1] == "child" {
+        std::process::exit(osfault::child_main(&args[2..]));
+    }
     if args.len() < 4 || args[1] != "check" {
         usage();
     }
